@@ -11,6 +11,7 @@ import (
 	"time"
 
 	kruiseappsv1alpha1 "github.com/openkruise/kruise-api/apps/v1alpha1"
+	kruiseappsv1beta1 "github.com/openkruise/kruise-api/apps/v1beta1"
 	"github.com/openkruise/rollouts/api/v1beta1"
 	"github.com/openkruise/rollouts/pkg/util"
 	"github.com/openkruise/rollouts/pkg/verifrt"
@@ -46,8 +47,8 @@ var (
 	evNames      = []string{"orders", "orders-v2"}
 )
 
-// kind: 0 Deployment (apps/v1), 1 CloneSet (apps.kruise.io/v1alpha1), 2 StatefulSet (apps/v1): two kinds of one
-// group, two groups.
+// kind: 0 Deployment (apps/v1), 1 CloneSet (apps.kruise.io/v1alpha1), 2 StatefulSet (apps/v1), 3 Advanced StatefulSet
+// (apps.kruise.io/v1beta1): two kinds of one group, and one kind in two groups.
 type evRef struct {
 	ns, name string
 	kind     int
@@ -57,7 +58,7 @@ func evPick(tag string) evRef {
 	return evRef{
 		ns:       evNamespaces[verifrt.IntRange(tag+".ns", 0, 1)],
 		name:     evNames[verifrt.IntRange(tag+".name", 0, 1)],
-		kind:     verifrt.IntRange(tag+".kind", 0, 2),
+		kind:     verifrt.IntRange(tag+".kind", 0, 3),
 	}
 }
 
@@ -69,6 +70,8 @@ func evRelease(name string, ref evRef) v1beta1.BatchRelease {
 		br.Spec.WorkloadRef = v1beta1.ObjectRef{APIVersion: "apps.kruise.io/v1alpha1", Kind: "CloneSet", Name: ref.name}
 	case 2:
 		br.Spec.WorkloadRef = v1beta1.ObjectRef{APIVersion: "apps/v1", Kind: "StatefulSet", Name: ref.name}
+	case 3:
+		br.Spec.WorkloadRef = v1beta1.ObjectRef{APIVersion: "apps.kruise.io/v1beta1", Kind: "StatefulSet", Name: ref.name}
 	}
 	return br
 }
@@ -83,6 +86,11 @@ func evWorkload(ref evRef, meta metav1.ObjectMeta, updated int32, ver string) cl
 		return cs
 	case 2:
 		sts := &apps.StatefulSet{ObjectMeta: meta}
+		sts.Status.UpdatedReplicas = updated
+		sts.Status.UpdateRevision = ver
+		return sts
+	case 3:
+		sts := &kruiseappsv1beta1.StatefulSet{ObjectMeta: meta}
 		sts.Status.UpdatedReplicas = updated
 		sts.Status.UpdateRevision = ver
 		return sts
@@ -128,7 +136,7 @@ func VerifC07_WorkloadEventWakesItsBatchRelease() {
 	}
 	// the workload the event is about (its namespace and name are fixed: the two releases range over the same and
 	// the other namespace / name around it)
-	w := evRef{ns: "ns", name: "orders", kind: verifrt.IntRange("w.kind", 0, 2)}
+	w := evRef{ns: "ns", name: "orders", kind: verifrt.IntRange("w.kind", 0, 3)}
 	meta := metav1.ObjectMeta{ResourceVersion: "2", Generation: 2}
 	// the control annotation, when the release has already claimed the workload
 	claimedBy := verifrt.IntRange("w.claimedBy", 0, 2) // 0 nobody, 1 rel-a, 2 some release that is not listed
